@@ -251,6 +251,8 @@ func (w *World) cryptoGlobal(e *Exec, g *ssa.Global) (Value, bool) {
 		return &Pointer{obj: e.newObject(nil, &OpaqueVal{name: "b64", data: "std"}, "b64")}, true
 	case "encoding/base64.RawStdEncoding":
 		return &Pointer{obj: e.newObject(nil, &OpaqueVal{name: "b64", data: "rawstd"}, "b64")}, true
+	case repoModule + "/pkg/requests.DefaultHTTPClient":
+		return &Pointer{obj: e.newObject(nil, &OpaqueVal{name: "http.Client"}, "httpclient")}, true
 	case "crypto/rand.Reader":
 		return &IfaceVal{typ: types.Typ[types.Int], val: &OpaqueVal{name: "rand.Reader"}}, true
 	}
